@@ -172,6 +172,17 @@ def c07_cases(rng, tier):
         cases.append(("num", b":" + num.encode() + b"\r\n"))
         if rng.random() < 0.2:
             cases.append(("len", b"$" + num.encode() + b"\r\nhello\r\n"))
+    # a run of d digits (d = 1..70, with and without a sign) that is ended by a byte which is not a digit: ASCII, control and
+    # non-ASCII bytes (the error path echoes what it read: every length of the echoed text and every kind of last byte)
+    enders = [b"x", b" ", b"\n", b"\r", b"\x00", b"\x7f", b"\x80", b"\xbf", b"\xc3", b"\xc3\xa9", b"\xe2\x82", b"\xf0\x9f\x98", b"\xff", b".", b"-", b"+"]
+    for d in range(1, 71):
+        for sign in (b"", b"-", b"+"):
+            digits = sign + (b"1" + b"0" * (d - 1) if d % 2 else b"9" * d)
+            for e in (enders if (d < 40 or tier != "quick") else enders[:8]):
+                for kind in (b":", b"$", b"*"):
+                    cases.append(("num-ender", kind + digits + e + b"\r\n"))
+                    if d in (29, 30, 31, 32, 33):
+                        cases.append(("num-ender", b"*2\r\n:1\r\n" + kind + digits + e + b"\r\n"))
     for k in range(1, 40):
         cases.append(("num", b":" + str(2**64 * k + rng.randint(0, 9)).encode() + b"\r\n"))
         cases.append(("num", b":-" + str(2**64 * k + rng.randint(0, 9)).encode() + b"\r\n"))
